@@ -179,7 +179,9 @@ pub fn campaign(ctx: &Ctx, target_name: &str, total_runs: u64, jobs: usize) -> F
 			.arg(&work)
 			.arg(format!("-runs={}", total_runs / jobs as u64))
 			.arg(format!("-seed={}", (ctx.seed as u32).wrapping_mul(31).wrapping_add(j as u32 + 1)))
-			.args(["-len_control=0", "-max_len=2048", "-timeout=60", "-rss_limit_mb=8192", "-malloc_limit_mb=3072", "-print_final_stats=1"])
+			// the campaign is sized in executions; the wall-clock bound only keeps a slow target (ASan + coverage
+			// instrumentation on the deep checks runs at ~150/s) from dominating the tier: what was executed is reported
+			.args(["-max_total_time=600", "-len_control=0", "-max_len=2048", "-timeout=60", "-rss_limit_mb=8192", "-malloc_limit_mb=3072", "-print_final_stats=1"])
 			.arg(format!("-artifact_prefix={}/", art.display()))
 			.env("ASAN_OPTIONS", "detect_leaks=0:abort_on_error=1")
 			.stdout(Stdio::piped())
